@@ -168,7 +168,10 @@ func isInteger(t types.Type) bool {
 
 // termOf of the analysis: loads of a local struct's field are named by their available-load
 // representative (see LoadReps), so a fact learned on one load holds for the re-load.
-func (ia *IA) termOf(v ssa.Value) term {
+func (ia *IA) termOf(v ssa.Value) term { return termOf(ia.Canon(v)) }
+
+// Canon follows the available-load / store-forwarding representatives of v.
+func (ia *IA) Canon(v ssa.Value) ssa.Value {
 	for i := 0; i < 8; i++ {
 		r, ok := ia.reps[v]
 		if !ok {
@@ -176,7 +179,7 @@ func (ia *IA) termOf(v ssa.Value) term {
 		}
 		v = r
 	}
-	return termOf(v)
+	return v
 }
 
 // widenedFrom strips integer conversions that cannot change the value (the source type's
@@ -202,6 +205,7 @@ func termOf(v ssa.Value) term {
 
 // eval computes the interval of an integer value (or of a len term) in state s.
 func (ia *IA) eval(v ssa.Value, s istate, depth int) Itv {
+	v = ia.Canon(v)
 	if c, ok := v.(*ssa.Const); ok {
 		if c.Value != nil && c.Value.Kind() == constant.Int {
 			if i, exact := constant.Int64Val(c.Value); exact {
@@ -537,6 +541,7 @@ func (ia *IA) refine(s istate, cond ssa.Value, truth bool) istate {
 // assign stores a refinement for v and pushes it through value-preserving wrappers:
 // integer conversions that cannot truncate, and +/- constant.
 func (ia *IA) assign(s istate, v ssa.Value, r Itv, depth int) {
+	v = ia.Canon(v)
 	if _, isConst := v.(*ssa.Const); isConst || depth > 6 {
 		return
 	}
